@@ -34,7 +34,9 @@ STUBS = sched_stubs = [
     'user updater logging (process, call index, global time) for a tagged '
     'variable', 'recording user Emitter']
 ASSUMPTIONS = [
-    'integer time; timesteps >= 1',
+    'integer time with timesteps >= 1, plus configurations with concrete '
+    'dyadic float timesteps / run lengths chosen by forking (times concrete, '
+    'values symbolic)',
     'claims are made for the schedules on which the clock is monotone and '
     'every pass advances it (ctx.assume of C03.monotone and C03.progress; '
     'the other schedules - the adaptive re-poll finding - are reported by '
@@ -75,6 +77,10 @@ def jobs(tier):
         J.append(_cfg('wide-N2', 2, 1, 10 ** 6, 'const', 'none', tier, K=4))
         J.append(_cfg('parallel-N2', 2, 2, 3, 'const', 'none', tier,
                       parallel=True))
+        # off-integer times: concrete dyadic floats chosen by forking
+        J.append(_cfg('dyadic-N2', 2, 2, 3, 'const', 'none', tier,
+                      ts_grid=[0.5, 1.5, 0.25], iv_grid=[0.75, 1.5, 2.0],
+                      K=12))
     else:
         for N, M, B in ((1, 3, 6), (2, 3, 4), (3, 2, 4), (2, 2, 8)):
             J.append(_cfg('const-N%d-M%d-B%d' % (N, M, B), N, M, B, 'const',
@@ -92,6 +98,11 @@ def jobs(tier):
                       parallel=True))
         J.append(_cfg('parallel-condfresh-N2', 2, 1, 3, 'const', 'fresh', tier,
                       parallel=True))
+        J.append(_cfg('dyadic-N2', 2, 3, 3, 'const', 'none', tier,
+                      ts_grid=[0.5, 1.5, 0.25, 1.0],
+                      iv_grid=[0.75, 1.5, 2.0, 0.5], K=14))
+        J.append(_cfg('dyadic-condfresh-N2', 2, 2, 3, 'const', 'fresh', tier,
+                      ts_grid=[0.5, 1.5, 1.0], iv_grid=[0.75, 1.5, 2.0], K=12))
     return J
 
 
